@@ -79,6 +79,7 @@ const (
 	// the rest of that audit (second builder): embedded structs, function values, shifts, slices, big scripts
 	kPromotedMethod = "promoted-method-call"
 	kNamedFuncValue = "named-func-value"
+	kFuncField      = "func-field-call"
 	kTypeSwitch     = "type-switch-compiler-panic"
 	kAndNot         = "and-not-rejected"
 	kMethodValue    = "method-value-misleading-error"
